@@ -11,7 +11,7 @@ INVARIANT ExactlyOnceAtReturn
 INVARIANT NoneRunningAtReturn
 INVARIANT ThreadIdsInPool
 INVARIANT UnlockedAtReturn
-INVARIANT Disjoint
+INVARIANT BelowTop
 INVARIANT ResvOnlyLocked
 INVARIANT OutComplete
 CONSTRAINT Track
